@@ -285,7 +285,7 @@ fn case(t0: &mut Tape, w: &Worker) -> CaseResult {
 pub fn build() -> Property {
     Property {
         id: "C06",
-        rule: "2..6 links generated independently (G_conf, per-link RDH version / format / barrel), 3/4 of the cases corrupted with 2..15 G_mut edits that keep framing, layout and every link's first RDH0; four interleavings of the same sequences \
+        rule: "2..6 links generated independently (G_conf, per-link RDH version / format / barrel), 3/4 of the cases corrupted with 2..15 G_mut edits that keep framing, layout and every link's first RDH0; a third of the streams get one more link that consists of RDH-only packets (no payload); four interleavings of the same sequences \
                (contiguous, round-robin, two random merges). Modes {check all its, check all its-stave, check sanity its, check all}. For every interleaving: the error messages of the full CLI run (statistics file, in order) must EQUAL the stable offset-merge of \
                one in-process sequential pass per link (per FEE ID in stave mode) over that link's packets alone, each handed over with its true offset; the same for runs with --filter-link / --filter-fee / --filter-its-stave and for the physically \
                extracted single-link file; findings normalised to (packet index in link, offset inside packet) must be identical across interleavings and between the link stored alone and interleaved. \
